@@ -4,6 +4,7 @@
    any interleaving of the receive, worker, responder and send steps, any behaviour of the implementation. *)
 From Coq Require Import NArith List Bool PeanoNat.
 From V9 Require Shape.ShapeLib Shape.PFid Shape.PDisc.
+From V9 Require Race.Facts Shape.PLocks.
 From V9 Require Import Lib.GoSem Gen.Consts Srv.Conc Srv.ConcProofs.
 From V9 Require Srv.FidRef Srv.FidRefProofs.
 From V9 Require Srv.Seq.
@@ -124,3 +125,10 @@ Print Assumptions C11_all_fids_destroyed_exactly_once_in_source.
 Theorem C11_source_disconnect_paths : ShapeLib.disconnect_paths = true.
 Proof. exact PDisc.disconnect_paths_ok. Qed.
 Print Assumptions C11_source_disconnect_paths.
+
+(* ---- a modelling assumption about the CURRENT source (Gen/LockFacts.v), re-checked on every run ---- *)
+(* the steps the models treat as atomic are critical sections in the source: every access to a mutex-protected
+   field (request lists and tag groups, flush chains, request status, the client's pending list and error) holds its mutex *)
+Theorem C11_source_critical_sections : V9.Race.Facts.violations = [].
+Proof. exact V9.Shape.PLocks.sites_comply_ok. Qed.
+Print Assumptions C11_source_critical_sections.
